@@ -208,8 +208,19 @@ class ConnectionPool(object):
         try:
             connection = yield from host_pool.acquire()
             connection.key = key
-        finally:
+        except BaseException:
             # Runs without awaiting so a cancelled waiter is always uncounted.
+            self._host_pool_waiters[key] -= 1
+
+            # The last check-in kept the pool because of this waiter.
+            if not self._host_pool_waiters[key] and host_pool.empty() \
+                    and self._host_pools.get(key) is host_pool \
+                    and not self._host_pools_lock.locked():
+                del self._host_pools[key]
+                del self._host_pool_waiters[key]
+
+            raise
+        else:
             self._host_pool_waiters[key] -= 1
 
         # TODO: Verify this assert is always true
